@@ -1271,6 +1271,23 @@ pub fn directed() -> Vec<Request> {
             }
         }
     }
+    // literals whose CONTENT looks like syntax (what a hand-written scanner over printed tokens
+    // trips on): as default values and inside key expressions, with and without `dump`
+    for lit in ["'}'", "'{'", "')'", "'('", "']'", "'\"'", "'\\''", "'\\\\'", "b'}'", "b'{'", "\"}\"", "\"{\"", "\"\\\"}\"", "\"//\"", "\"/*\"", "\"*/\"", "\";\"", "\",\"", "\"\\n}\"", "r\"}\"", "r#\"\"}\"#", "b\"}\"", "'\\u{7d}'", "\"$\"", "'$'", "\"__placeholder\""] {
+        for dump in ["", ", dump"] {
+            out.push(Request { mode: Mode::Attr, attr: format!("Default, Debug{dump}"), item: format!("struct X(#[default({lit})] char, #[default({lit}, bound())] u8);") });
+            out.push(Request { mode: Mode::Attr, attr: format!("Default{dump}"), item: format!("#[default({lit})] enum X {{ A, B }}") });
+            out.push(Request { mode: Mode::Derive, attr: String::new(), item: format!("#[derive_ex(Default(dump), PartialEq{dump})] enum X {{ #[default] A {{ #[default({lit})] a: char, #[partial_eq(key = $ == {lit})] b: char }} }}") });
+            out.push(Request { mode: Mode::Attr, attr: format!("Ord, PartialOrd, Eq, PartialEq, Hash{dump}"), item: format!("struct X(#[ord(key = ($, {lit}))] u8, #[hash(by = |a, h| {lit}.hash(h))] u8);") });
+        }
+    }
+    // every dictionary type inside bound(..), bare and as the bounded type of a predicate
+    for ty in crate::gen::TYPES {
+        for attr in [format!("Clone(bound({ty}))"), format!("Clone, Default, bound({ty}: Clone, ..)"), format!("Add(bound({ty}, T: Copy))")] {
+            out.push(Request { mode: Mode::Attr, attr, item: "struct X<'a, T, U, const N: usize>(T, &'a U, [u8; N]);".into() });
+        }
+        out.push(Request { mode: Mode::Derive, attr: String::new(), item: format!("#[derive_ex(PartialEq, Hash)] enum X<'a, T, U, const N: usize> {{ A(#[eq(bound({ty}))] T), B {{ #[hash(bound({ty}: Hash))] u: &'a U }} }}") });
+    }
     // normalise to the printed token form and drop what is not a valid request
     let mut res = Vec::new();
     let mut seen = std::collections::BTreeSet::new();
